@@ -68,6 +68,27 @@ SEEDS = {
              "a panic in an operator whose 16-slot output channel is full: the late-polled side of a join with >= 17 chunks, panic exactly at the 17th", ["C15"]),
     "C18b": ("C18", "src/storage/secondary/column.rs get_block: the checksum is verified after the block has entered the cache (and only on a cache miss)",
              "altered bytes in a .col block and at least two reads of it through one open database: the first read fails, later reads are served from the cache unchecked", ["C18"]),
+    # ---- fourth round (remaining properties; repaired tree)
+    "C02b": ("C02", "src/executor/hash_join.rs HashSemiJoinExecutor probe: early `return false` for a NULL key bypasses the `^ anti` inversion",
+             "an anti join without residual condition (NOT EXISTS with one equality) and an outer row whose join key is NULL (it must be kept)", ["C02", "C01", "C11"]),
+    "C06b": ("C06", "src/storage/secondary/block/nullable_block_iterator.rs skip: `cur_row += cnt` -> `cur_row = cnt`",
+             "a nullable block with NULLs and values, read or skipped to a non-zero position, then skipped strictly inside the block, then read again (validity bitmap shifted)", ["C06"]),
+    "C11b": ("C11", "src/executor/nested_loop_join.rs NestedLoopSemiJoinExecutor: `exists |= ..` -> `exists = ..`",
+             "an ANTI join executed by the nested-loop implementation whose right input has >= 2 chunks and a left row matching only in a non-last chunk", ["C11", "C02"]),
+    "C13b": ("C13", "src/storage/secondary/rowset/rowset_iterator.rs next_batch_inner: the key-range bitmap replaces (instead of ANDs with) the visibility map carrying the delete vectors",
+             "a pk table with committed deletes and a key-range scan whose bound cuts through a batch that contains a deleted row inside the range (deleted rows reappear)", ["C13", "C07", "C05"]),
+    "C16b": ("C16", "src/executor/insert.rs: the NOT NULL check moved into the loop that skips columns not in the INSERT's column list",
+             "an INSERT with a column list that omits a NOT NULL / PRIMARY KEY column (filled with NULL: stored as NULL in memory, as 0 / '' on disk)", ["C16", "C05"]),
+    "C20b": ("C20", "src/executor/copy_from_file.rs: csv reader built with `.trim(csv::Trim::All)`",
+             "a string cell that begins or ends with whitespace (or is only whitespace: imported as NULL)", ["C20"]),
+    "C12b": ("C12", "src/storage/secondary/merge_iterator.rs replace_pending_data: right-child bound `right_child < last_element` (off by one: the last heap slot is never considered)",
+             "disk engine, pk table, >= 3 live row-sets with interleaving key ranges (odd heap size at a sift-down): ORDER BY pk (sort elided) comes back unsorted", ["C12", "C07", "C05"]),
+    "C14b": ("C14", "src/array/primitive_array.rs clear_null: streaming rewrite reuses the 64-slot mask of the previous bitmap word when a word has no NULLs",
+             "a batch of >= 128 rows in which one 64-row word contains a NULL and the NEXT word is entirely valid (TRUE results at the same bit positions become FALSE)", ["C14"]),
+    "C17b": ("C17", "src/planner/rules/plan.rs apply_column0 (in-to-exists): the subquery's first output expression is no longer wrapped in Ref when it is computed",
+             "IN / NOT IN over a subquery whose select item is a computed non-aggregate expression (`a in (select x + 1 from s)`): the subquery side is pruned to no columns, executor build panics", ["C17", "C01", "C02"]),
+    "C19b": ("C19", "src/types/interval.rs: hand-written Ord/PartialOrd by 30-day-month time span while Eq/Hash stay field-wise",
+             "two INTERVAL values with equal span but different fields (1 month vs 30 days): <, =, > all false; ORDER BY/MIN/MAX and GROUP BY/DISTINCT/hash join disagree", ["C19"]),
 }
 
 
